@@ -758,11 +758,16 @@ func ParallelJudge[C any](judge func(C) []Violation) func(Batch[C]) []Violation 
 }
 
 // Pool collects generated cases and later judges them in concurrent batches (kind
-// "<name>" = ParallelJudge of the per-case judge).
+// "<name>" = ParallelJudge of the per-case judge).  It keeps the HEAVIEST cases it is
+// offered (by size of their JSON form, among the first few thousand offers): large,
+// nested, dynamic cases spend longest inside the code under test, which is what makes
+// overlapping calls likely.
 type Pool[C any] struct {
-	k     *Kind[Batch[C]]
-	cases []C
-	max   int
+	k      *Kind[Batch[C]]
+	cases  []C
+	sizes  []int
+	max    int
+	offers int
 }
 
 // NewPool registers the concurrent kind. Call it in TestReplay as well (max 0).
@@ -770,10 +775,30 @@ func NewPool[C any](r *Recorder, name string, judge func(C) []Violation, max int
 	return &Pool[C]{k: NewKind(r, name, ParallelJudge(judge)), max: max}
 }
 
-// Offer keeps the case for the concurrent phase while there is room.
+// Offer keeps the case for the concurrent phase if it is among the heaviest seen.
 func (p *Pool[C]) Offer(c C) {
+	if p.max == 0 || p.offers > 4000 {
+		return
+	}
+	p.offers++
+	b, err := json.Marshal(c)
+	if err != nil {
+		return
+	}
 	if len(p.cases) < p.max {
 		p.cases = append(p.cases, c)
+		p.sizes = append(p.sizes, len(b))
+		return
+	}
+	// replace the lightest kept case if this one is heavier
+	mi := 0
+	for i, s := range p.sizes {
+		if s < p.sizes[mi] {
+			mi = i
+		}
+	}
+	if len(b) > p.sizes[mi] {
+		p.cases[mi], p.sizes[mi] = c, len(b)
 	}
 }
 
